@@ -158,6 +158,26 @@ let () = iter_lines (fun line ->
       let (r, s') = Ctor.bucket_add_inplace (ObjMgr.creator_copy (loc 0 0)) s in
       Printf.printf "cnt=%d " (n2i (s'.hp.regs (i2n 11)));
       show_tree r s'
+    | ["setcnt"; c; n; k; cap; newc] ->
+      let n = int_of_string n and k = int_of_string k and cap = int_of_string cap and newc = int_of_string newc in
+      let s = mk_state_r [(10, 1); (11, n); (12, cap)] ([Live (i2n 7)] :: (if cap = 0 then [] else [lives 100 n @ raws (cap - n)])) k in
+      let (r, s') =
+        if newc <= n then SetCount.array_remove_back (i2n (n - newc)) s
+        else if newc <= cap then SetCount.array_setcount_nogrow (loc 0 0) (i2n newc) s
+        else SetCount.array_setcount_grow (cat_of c) (i2n newc) (i2n newc) (loc 0 0) s in
+      show r s'
+    | ["hashfirst"; _; _; k] ->
+      let k = int_of_string k in
+      (* block 0 = the argument item; new blocks in order: table, BucketParams, the bucket's item block *)
+      let s = mk_state [[Live (i2n 7)]; [Raw]] k in      (* block 1 = the set's crew block, allocated by its constructor *)
+      let (r, s') = HashGrow.pv_add_grow false (i2n 8) (i2n 5) (Effects.ret ()) (HashGrow.bucket_add0 (loc 0 0)) s in
+      (* sizes of the table / params blocks are implementation details: print events and liveness only *)
+      let h = s'.hp in
+      let out = match r with Ok _ -> "Ok" | Exn -> "Exn" | Stuck -> "Stuck" in
+      let ev = function EvA (b, _) -> Printf.sprintf "A%d" (n2i b) | e -> sev e in
+      let evs = String.concat " " (Stdlib.List.rev_map ev s'.trace) in
+      let blk b = if h.alive (i2n b) then Printf.sprintf "b%d+" b else Printf.sprintf "b%d-" b in
+      Printf.printf "%s | %s | %s\n" out evs (String.concat " " (Stdlib.List.init (n2i h.next) blk))
     | ["noderemove"; _; n; k; index] ->
       let n = int_of_string n and k = int_of_string k and index = int_of_string index in
       let cap = if n <= 2 then 2 else 4 in
